@@ -3,11 +3,20 @@ import framework as fw, vm
 
 def run(prop, tier, seed, wd, t0):
     jobs = [vm.step_ref(tier, [prop])]
-    try:
-        import ctv
-        extra = lambda out: ctv.semantics_obligations(prop, tier, seed, wd, out)
-    except ImportError:
-        extra = None
+    def extra(out):
+        cov = {}
+        try:
+            import ctv
+            cov.update(ctv.semantics_obligations(prop, tier, seed, wd, out) or {})
+        except ImportError:
+            pass
+        try:
+            import genh      # lowering of assignment (quick, thorough) and of LOOP / WHILE (thorough) by the real generator functions from arbitrary generator states
+            if hasattr(genh, 'lowering_obligations'):
+                cov.update(genh.lowering_obligations(prop, tier, seed, wd, out) or {})
+        except ImportError:
+            pass
+        return cov
     return fw.run_e1(prop, tier, seed, wd, t0, jobs, fw.COMMON_ASSUMPTIONS + [
         'values stay below 2^31-1 (as the property states)',
         'the end-to-end statement is cut into links (instruction lemmas, translation validation of compiled shapes, scanner/include/macro links C14/C15/C09); their composition is an argument in DESIGN.md, not a solver result'],
